@@ -5,10 +5,10 @@ cd /verif
 J=${1:-4}
 one() {
   d=$1; n=$(basename $d)
-  p=$(python3 -c "import json;print(json.load(open('$d/meta.json'))['breaks_property'])")
+  p=$(python3 -c "import json;m=json.load(open('$d/meta.json'));print(' '.join(m.get('checks',[m['breaks_property']])))")
   out=$(SKIPDEMO=1 timeout 1500 tools/mutant_test.sh $d $p 2>&1)
   if echo "$out" | grep -q "PATCH DOES NOT APPLY"; then echo "$n $p STALE-PATCH"; return; fi
-  rc=$(echo "$out" | grep "check $p exit" | awk '{print $NF}')
+  rc=$(echo "$out" | grep "check .* exit" | awk "{print \$NF}" | sort -u | grep -x 1 || echo 0)
   demo=$(echo "$out" | grep "demo with change" | awk '{print $5}')
   echo "$n $p check-exit=$rc demo-with-change=$demo $([ "$rc" = 1 ] && echo CAUGHT || echo MISS)"
 }
